@@ -457,7 +457,7 @@ def _site_setup(kind, with_routines=False):
     return bm, deb, obj
 
 
-def h_hydrogen_site(eng, kind, pre, then_complete, undo=False):
+def h_hydrogen_site(eng, kind, pre, then_complete, undo=False, attempt=False, prop="C14"):
     """kind: water | alcohol; pre: names of atoms placed (and binned, as the try_* helpers do) before finalize()"""
     from pdb2pqr import residue as residue_mod
     from pdb2pqr import utilities
@@ -517,7 +517,12 @@ def h_hydrogen_site(eng, kind, pre, then_complete, undo=False):
         calls["pair"] = calls.get("pair", 0) + 1
         return 1.0 if calls["pair"] % 2 else (1.5 if sel("second_position_better") else 0.5)
 
+    phase = {"attempt": False, "n": 0, "hb": 0}
+
     def energy(a, b):
+        if phase["attempt"]:
+            phase["n"] += 1
+            return 0.0 if phase["n"] == 1 else (-1.0 if sel("attempt_second_position_better") else 1.0)
         calls["energy"] += 1
         if scan_call("energy", 2):
             return -1.0 if winning() else 0.0
@@ -561,6 +566,30 @@ def h_hydrogen_site(eng, kind, pre, then_complete, undo=False):
                 centre.bonds.append(na)
             if centre not in na.bonds:
                 na.bonds.append(centre)
+        candidates = []
+        real_two = obj.get_positions_with_two_bonds
+
+        def two_bonds(atom):
+            l1, l2 = real_two(atom)
+            candidates.extend([tuple(l1), tuple(l2)])
+            return l1, l2
+
+        obj.get_positions_with_two_bonds = two_bonds
+        if attempt:
+            # a real donor attempt towards a backbone oxygen before the residue is finalised: whether each trial position
+            # makes a hydrogen bond and which one is better are selectors
+            acceptor = [a for a in bm.atoms if a.residue is not res and a.name == "O" and a.hacceptor][0]
+
+            def is_hbond(self, donor, acc):
+                phase["hb"] += 1
+                return bool(sel(f"attempt_position_{phase['hb']}_makes_a_hydrogen_bond"))
+
+            phase["attempt"] = True
+            with patched((optimize.Optimize, "is_hbond", is_hbond)):
+                res.fixed = 0
+                got = obj.try_donor(centre, acceptor)
+            phase["attempt"] = False
+            eng.note(f"try_donor -> {got}")
         if undo:
             # try_both: the donor side succeeds (hydrogen created and binned, as every try_* helper does), the acceptor
             # side fails, so the hydrogen is taken back
@@ -592,6 +621,15 @@ def h_hydrogen_site(eng, kind, pre, then_complete, undo=False):
             obj.complete()
             what = "finalize(); complete()"
     eng.note(f"{kind} {pre} -> atoms {[a.name for a in res.atoms]}; scans {turns.n20 // 18}; {calls}")
+    if prop == "C05":
+        # the hydrogen built on an oxygen that already had two bonds sits at one of the two free tetrahedral positions
+        if candidates:
+            new_h = [a for a in res.atoms if a.is_hydrogen and a.bonds and a.bonds[0] is centre and a.name not in pre]
+            for h in new_h:
+                here = (h.x, h.y, h.z)
+                at = [And(*[core.same(here[k], c[k]) for k in range(3)]) for c in candidates]
+                eng.check(core.Or(*at), "hydrogen-at-a-free-tetrahedral-position", note=f"{res.name} {h.name} after {what}: at {tuple(str(v) for v in here)}, the free positions are {[tuple(str(v) for v in c) for c in candidates]}")
+        return
     _check_binned_where_it_is(eng, cells, structures, log, list(res.atoms), 5, f"{type(obj).__name__}.{what} on {res.name} with {list(pre) or 'no'} atoms placed before")
     mine = {id(a) for a in res.atoms}
     ghosts = sorted(a.name for i, a in log.atoms.items() if a.residue is res and i not in mine)
@@ -1004,6 +1042,8 @@ def obligations(tier):
     obs.append(Obligation("map-rebuilt-between-passes", h_map_rebuilt, {}, group="map-rebuilt", time_cap=900))
     for hq, ho in ((True, True), (True, False), (False, False)):
         obs.append(Obligation(f"bump-search-{'heavy' if hq else 'hydrogen'}-{'heavy' if ho else 'hydrogen'}", h_bump_search, dict(heavy_query=hq, heavy_other=ho), group="partner-search", time_cap=600))
+    for kind, pre in (("water", ("H1", "LP1")), ("water", ("LP1", "LP2")), ("alcohol", ("LP1",))):
+        obs.append(Obligation(f"hydrogen-site-{kind}-{'+'.join(pre)}-donor-attempt", h_hydrogen_site, dict(kind=kind, pre=list(pre), then_complete=True, attempt=True), group="hydrogen-site", time_cap=1200))
     for kind, pre in (("water", ()), ("water", ("H1",)), ("alcohol", ()), ("alcohol", ("LP1",))):
         obs.append(Obligation(f"hydrogen-site-{kind}-{'+'.join(pre) or 'bare'}-undone-try-both", h_hydrogen_site, dict(kind=kind, pre=list(pre), then_complete=True, undo=True), group="hydrogen-site", time_cap=1200))
     for resname in ("ASH",) if tier == "quick" else ("ASH", "GLH"):
